@@ -1582,3 +1582,44 @@ def memo_result_escape_rule(ctx, rid, scope, min_instances=1):
             r.fail(f.qualname, f"memo-escape:{norm_text(v)[:30]}", f.file, n.lineno, f"{f.cls.name}.{f.name}", f"`{norm_text(n)[:70]}` hands out an object that shares storage with the value memoised by {src}(): an in-place structural edit by the caller (eliminate_zeros(), sort_indices(), +=) changes the memo, and every later result built from it is silently wrong")
         else:
             r.ok(f"{f.qualname}: memoised values stay private")
+
+
+def loop_carried_parameter_rule(ctx, rid, scope, min_instances=5):
+    """In a loop over the element groups of a mesh every group is treated from the SAME inputs.  A function parameter that the
+    loop body reads (at the top of an iteration) and also rebinds (further down) carries the value left by the previous
+    group into the next one: the second group works on what the first one made of the caller's argument (a node selection
+    narrowed to the first group's nodes, a value already scaled once).  Flagged: a parameter assigned inside the body of a
+    group loop and read in that body at or before its first assignment there."""
+    repo = ctx.repo
+    r = ctx.rule(rid, "in loops over the element groups no function parameter is both read at the top of the body and rebound further down (no value carried from one group to the next)", min_instances=min_instances)
+    GROUP_ITERS = ("Get_list_groupElem", "dict_groupElem", "list_groupElem")
+    for f in sorted(repo.all_functions(), key=lambda f: f.qualname):
+        if not scope(f):
+            continue
+        params = set(f.params())
+        for n in ast.walk(f.node):
+            if not (isinstance(n, ast.For) and any(k in norm_text(n.iter) for k in GROUP_ITERS)):
+                continue
+            r.instance(fn=f.qualname)
+            assigned = {}
+            for st in n.body:
+                for x in ast.walk(st):
+                    if isinstance(x, (ast.Assign, ast.AugAssign, ast.AnnAssign)):
+                        tg = x.targets if isinstance(x, ast.Assign) else [x.target]
+                        for t in tg:
+                            for y in (t.elts if isinstance(t, (ast.Tuple, ast.List)) else [t]):
+                                if isinstance(y, ast.Name) and y.id in params:
+                                    assigned.setdefault(y.id, x.lineno)
+                                    assigned[y.id] = min(assigned[y.id], x.lineno)
+            bad = None
+            for nm, first in sorted(assigned.items()):
+                reads = [x for st in n.body for x in ast.walk(st) if isinstance(x, ast.Name) and x.id == nm and isinstance(x.ctx, ast.Load) and x.lineno <= first]
+                # a read on the right-hand side of the (first) assignment itself is a read of the incoming value too
+                if reads:
+                    bad = (nm, first, reads[0])
+                    break
+            if bad:
+                nm, first, rd = bad
+                r.fail(f.qualname, f"loop-carried-parameter:{nm}", f.file, first, f"{(f.cls.name + '.') if f.cls else ''}{f.name}", f"the parameter `{nm}` is read at line {rd.lineno} of the loop over `{norm_text(n.iter)[:40]}` and rebound at line {first} of the same body: from the second element group on, the loop works with the value the previous group left in `{nm}`, not with the caller's argument")
+            else:
+                r.ok()
